@@ -86,7 +86,7 @@ func (r *c12Runner) exec(dir string, args, env []string, stdin []byte) c12M {
 	cmd.Env = append([]string{"HOME=/nonexistent", "PATH=/usr/bin:/bin"}, env...)
 	cmd.Stdin = bytes.NewReader(stdin)
 	var se bytes.Buffer
-	so := &capBuffer{max: 1 << 20}
+	so := &capBuffer{max: 6 << 20} // (the largest legitimate output of the check, 300 levels under --indent 9, is below 2 MiB)
 	cmd.Stdout, cmd.Stderr = so, &se
 	err := cmd.Run()
 	status := 0
